@@ -609,6 +609,7 @@ def check(prop, tier, seed=0):
                     kf = [f for f in findings if re.search(f['obligation'], name)]
                     if kf:
                         known.append((kf[0], r, ob))
+                        n_obl -= 1      # a listed finding is reported separately, not counted as an open obligation
                     else:
                         violations.append((r, ob))
             for o in obs[:2]:
